@@ -419,7 +419,7 @@ fn check_input(prop: &str, s: &dyn Subject, sd: &SubjectDef, p: &Prepared, input
     }
     if !panicked {
         match prop {
-            "C01" | "C02" | "C03" => {
+            "C01" | "C02" | "C03" | "C11" => {
                 let kind_of = |leaf: usize| p.reflex.pats[leaf].variant.unwrap_or(usize::MAX);
                 let (jf, st) = judge(&p.reflex, &p.prio, input, &obs.items, obs.ended, &kind_of);
                 f.extend(jf);
@@ -557,6 +557,8 @@ fn families_for(prop: &str) -> &'static [&'static str] {
     match prop {
         "C13" => &["callbacks"],
         "C20" => &["core", "stress", "stress-cb"],
+        "C11" => &["sub"],
+        "C01" | "C12" | "C06" | "C05" => &["core", "sub"],
         _ => &["core"],
     }
 }
@@ -570,6 +572,7 @@ fn rule_for(prop: &str) -> String {
         "C04" => "oracle = char-boundary predicate on every observable span, then slice()/remainder() equality; non-trivial = distinct (definition,input) with an item boundary adjacent to a multi-byte char",
         "C05" => "oracle = no panic / no sanitizer report, exactly sized heap inputs; non-trivial = distinct (definition,input) whose last item ends exactly at the end of the allocation",
         "C07" => "every split point of every input: partial items are a leading run of the one-shot items of the input and of 6 alternative continuations, empty span at None, rest re-lexes to the remaining items, chunked history reproduces the stream (same build); non-trivial = splits strictly inside an item/skip or where the partial lexer stopped before the split",
+        "C11" => "subpattern family on compiled lexers: definitions with (?&name) references (nested, str and byte-string subpatterns, str and byte mode); oracle = reference lexer built from the AST-inlined patterns; non-trivial = attempts with >= 2 matching patterns / several match ends",
         "C12" => "str-mode definitions compiled twice (utf8 default / utf8 = false) in one module, same valid UTF-8 input to both; oracle: Ok tokens with spans equal and the sets of bytes covered by errors equal (twin against twin); non-trivial = distinct (definition,input) with a multi-byte char inside or next to an error",
         "C13" => "callbacks family: every pattern carries a callback (return type from the whole documented table, decision = pure function of salt and matched text, bump of 0-2 chars, 4 attachment forms, optional error callback, custom error type with From); oracle: model driven by the callback-free twin T0 (one unit variant per leaf) restarted after every item at the position the model computes, decisions applied per the documented table: items, spans, payloads, error codes, callback log (exactly one entry per winning match with span/slice of the match, bumped bytes) and error-callback log must be equal; plus the T1 twin where always-Skip callbacks are replaced by skip patterns; non-trivial = distinct (definition,input) with a non-Emit decision, a bump > 0, or a Skip followed by a restart",
         "C20" => "oracle on the read trace (hook): offsets non-decreasing per attempt, reads <= 4*(examined+1)+16, first read at the attempt start; non-trivial = attempts examining >= 16 bytes",
